@@ -6,7 +6,7 @@ import QipVerif.Lemmas.SchedOracle
 Property theorems only.  Model: `QipVerif.Sched` (`Model/Sched.lean`, shared with C05), tied to
 `qutip_qip.compiler.scheduler` by `py/props/c11.py` (start times compared exactly).
 
-`startsGen alap allowPerm ns O2` is the list `Scheduler(method, allow_permutation).schedule(ns)`
+`startsGen alap allowPerm fx ns O2` is the list `Scheduler(method, allow_permutation).schedule(ns)`
 returns for a list of timed instructions; durations are integers over a common denominator.
 All theorems hold for **every** instruction list with non-negative (in particular positive)
 durations, both methods, both permutation settings and **every** permutation-valued ordering oracle
@@ -21,46 +21,46 @@ proves it under an explicit hypothesis.
 namespace QipVerif.C11
 open QipVerif.Sched Relation
 
-variable (alap allowPerm : Bool) (ns : List Ins)
+variable (alap allowPerm fx : Bool) (ns : List Ins)
 variable (O2 : Nat → List Nat → List Nat)
 
-theorem pulseStarts_eq (cfg : Cfg) : pulseStarts cfg ns = startsGen cfg.alap cfg.allowPerm ns (O2of cfg ns) := rfl
+theorem pulseStarts_eq (cfg : Cfg) : pulseStarts cfg ns = startsGen cfg.alap cfg.allowPerm cfg.fx ns (O2of cfg ns) := rfl
 
 theorem real_oracle_perm (cfg : Cfg) : ∀ r l, (O2of cfg ns r l).Perm l := O2of_perm cfg ns
 
-theorem starts_length : (startsGen alap allowPerm ns O2).length = ns.length := startsGen_length alap allowPerm ns O2
+theorem starts_length : (startsGen alap allowPerm fx ns O2).length = ns.length := startsGen_length alap allowPerm fx ns O2
 
 /-- **start_nonneg.** -/
 theorem start_nonneg (hO : ∀ r l, (O2 r l).Perm l) (hdur : ∀ a ∈ ns, 0 ≤ a.dur) (i : Nat) (hi : i < ns.length) :
-    0 ≤ (startsGen alap allowPerm ns O2).getD i 0 := by
-  rw [startsGen_getD alap allowPerm ns O2 hi]
-  exact startOf_nonneg alap allowPerm ns O2 hO (durIdx_nonneg ns hdur) hi
+    0 ≤ (startsGen alap allowPerm fx ns O2).getD i 0 := by
+  rw [startsGen_getD alap allowPerm fx ns O2 hi]
+  exact startOf_nonneg alap allowPerm fx ns O2 hO (durIdx_nonneg ns hdur) hi
 
 /-- **min_start_zero.**  The earliest start is exactly `0`: some instruction starts at `0` and none earlier. -/
 theorem min_start_zero (hO : ∀ r l, (O2 r l).Perm l) (hdur : ∀ a ∈ ns, 0 ≤ a.dur) (hne : ns ≠ []) :
-    (∃ i, i < ns.length ∧ (startsGen alap allowPerm ns O2).getD i 0 = 0) ∧
-    ∀ i, i < ns.length → 0 ≤ (startsGen alap allowPerm ns O2).getD i 0 := by
-  refine ⟨?_, start_nonneg alap allowPerm ns O2 hO hdur⟩
-  obtain ⟨i, hi, h0⟩ := exists_start_zero alap allowPerm ns O2 hO hne
-  exact ⟨i, hi, by rw [startsGen_getD alap allowPerm ns O2 hi]; exact h0⟩
+    (∃ i, i < ns.length ∧ (startsGen alap allowPerm fx ns O2).getD i 0 = 0) ∧
+    ∀ i, i < ns.length → 0 ≤ (startsGen alap allowPerm fx ns O2).getD i 0 := by
+  refine ⟨?_, start_nonneg alap allowPerm fx ns O2 hO hdur⟩
+  obtain ⟨i, hi, h0⟩ := exists_start_zero alap allowPerm fx ns O2 hO hne
+  exact ⟨i, hi, by rw [startsGen_getD alap allowPerm fx ns O2 hi]; exact h0⟩
 
 /-- **dep_respected.**  If `i < j` share a qubit and the commutation rule does not declare them
 commuting, `j` does not start before `i` has finished (longest-path inequality along the dependency chain). -/
 theorem dep_respected (hO : ∀ r l, (O2 r l).Perm l) (hdur : ∀ a ∈ ns, 0 ≤ a.dur) (i j : Nat) (hij : i < j)
     (hj : j < ns.length) (hs : shareIdx ns i j = true) (hc : commIdx allowPerm ns j i = false) :
-    (startsGen alap allowPerm ns O2).getD i 0 + durIdx ns i ≤ (startsGen alap allowPerm ns O2).getD j 0 := by
-  rw [startsGen_getD alap allowPerm ns O2 (by omega : i < ns.length), startsGen_getD alap allowPerm ns O2 hj]
-  exact dep_ineq alap allowPerm ns O2 hO (durIdx_nonneg ns hdur) hij hj hs hc
+    (startsGen alap allowPerm fx ns O2).getD i 0 + durIdx ns i ≤ (startsGen alap allowPerm fx ns O2).getD j 0 := by
+  rw [startsGen_getD alap allowPerm fx ns O2 (by omega : i < ns.length), startsGen_getD alap allowPerm fx ns O2 hj]
+  exact dep_ineq alap allowPerm fx ns O2 hO (durIdx_nonneg ns hdur) hij hj hs hc
 
 /-- **makespan_le_sum.**  Every instruction finishes no later than the sequential execution would. -/
 theorem makespan_le_sum (hO : ∀ r l, (O2 r l).Perm l) (hdur : ∀ a ∈ ns, 0 ≤ a.dur) (i : Nat) (hi : i < ns.length) :
-    (startsGen alap allowPerm ns O2).getD i 0 + durIdx ns i ≤ (ns.map Ins.dur).sum := by
-  rw [startsGen_getD alap allowPerm ns O2 hi]
-  exact finish_le_sum alap allowPerm ns O2 hO (durIdx_nonneg ns hdur) i
+    (startsGen alap allowPerm fx ns O2).getD i 0 + durIdx ns i ≤ (ns.map Ins.dur).sum := by
+  rw [startsGen_getD alap allowPerm fx ns O2 hi]
+  exact finish_le_sum alap allowPerm fx ns O2 hO (durIdx_nonneg ns hdur) i
 
 -- non-vacuity of the hypotheses and of the clauses on a schedule with unequal durations and a shuffle
-example : pulseStarts ⟨true, true, [[1, 0]]⟩
-    [⟨"X", [0], [], 1⟩, ⟨"Z", [1], [], 2⟩, ⟨"CNOT", [2], [1], 3⟩, ⟨"X", [2], [], 4⟩, ⟨"CNOT", [1], [0], 5⟩]
+example : pulseStarts ⟨true, true, [[1, 0]], false⟩
+    [⟨"X", [0], [], 1, true⟩, ⟨"Z", [1], [], 2, true⟩, ⟨"CNOT", [2], [1], 3, true⟩, ⟨"X", [2], [], 4, true⟩, ⟨"CNOT", [1], [0], 5, true⟩]
     = [0, 0, 2, 0, 5] := by decide +kernel
 
 /-! ## no overlap -/
@@ -72,13 +72,13 @@ have intersecting execution intervals.  It does **not** hold in general (`C11_co
 never overlaps. -/
 theorem no_overlap_pair_partial (hO : ∀ r l, (O2 r l).Perm l) (hdur : ∀ a ∈ ns, 0 ≤ a.dur) (i j : Nat) (hij : i < j)
     (hj : j < ns.length) (hs : shareIdx ns i j = true) (hc : commIdx allowPerm ns j i = false) :
-    overlaps ns (startsGen alap allowPerm ns O2) i j = false ∧ overlaps ns (startsGen alap allowPerm ns O2) j i = false := by
+    overlaps ns (startsGen alap allowPerm fx ns O2) i j = false ∧ overlaps ns (startsGen alap allowPerm fx ns O2) j i = false := by
   have hd := durIdx_nonneg ns hdur
   have hi : i < ns.length := by omega
-  have := dep_ineq alap allowPerm ns O2 hO hd hij hj hs hc
+  have := dep_ineq alap allowPerm fx ns O2 hO hd hij hj hs hc
   unfold overlaps
-  rw [startsGen_getD alap allowPerm ns O2 hi, startsGen_getD alap allowPerm ns O2 hj]
-  have h3 : decide (startOf alap allowPerm ns O2 j < startOf alap allowPerm ns O2 i + durIdx ns i) = false := by
+  rw [startsGen_getD alap allowPerm fx ns O2 hi, startsGen_getD alap allowPerm fx ns O2 hj]
+  have h3 : decide (startOf alap allowPerm fx ns O2 j < startOf alap allowPerm fx ns O2 i + durIdx ns i) = false := by
     simp only [decide_eq_false_iff_not]; omega
   simp [h3]
 
@@ -93,46 +93,80 @@ theorem no_overlap_same_cycle (c : List Nat) (hc : c ∈ cyclesGen alap allowPer
 /-- **no_overlap_partial.**  The whole clause holds when no qubit-sharing pair is declared commuting … -/
 theorem no_overlap_partial (hO : ∀ r l, (O2 r l).Perm l) (hdur : ∀ a ∈ ns, 0 ≤ a.dur)
     (H : ∀ i j, i < j → j < ns.length → shareIdx ns i j = true → commIdx allowPerm ns j i = false) :
-    noOverlap ns (startsGen alap allowPerm ns O2) = true := by
+    noOverlap ns (startsGen alap allowPerm fx ns O2) = true := by
   rw [noOverlap_iff]
   intro i hi j hj hij
   by_cases hs : shareIdx ns i j = true
   · rcases Nat.lt_or_gt_of_ne hij with h | h
-    · exact (no_overlap_pair_partial alap allowPerm ns O2 hO hdur i j h hj hs (H i j h hj hs)).1
+    · exact (no_overlap_pair_partial alap allowPerm fx ns O2 hO hdur i j h hj hs (H i j h hj hs)).1
     · have hs' : shareIdx ns j i = true := by rw [shareIdx, share_symm]; exact hs
-      exact (no_overlap_pair_partial alap allowPerm ns O2 hO hdur j i h hi hs' (H j i h hi hs')).2
+      exact (no_overlap_pair_partial alap allowPerm fx ns O2 hO hdur j i h hi hs' (H j i h hi hs')).2
   · unfold overlaps; simp [hs]
+
+/-- **no_overlap_fixed.**  With the repaired recording of conflict edges (`fx = true`: an approved candidate
+also waits for every instruction of the previous cycles it shares a qubit with — `fixes/C11-1.patch`) the
+clause holds for **every** instruction list, both methods, both permutation settings, every oracle. -/
+theorem no_overlap_fixed (hO : ∀ r l, (O2 r l).Perm l) (hdur : ∀ a ∈ ns, 0 ≤ a.dur) :
+    noOverlap ns (startsGen alap allowPerm true ns O2) = true := by
+  rw [noOverlap_iff]
+  intro i hi j hj hij
+  have hd := durIdx_nonneg ns hdur
+  by_cases hs : shareIdx ns i j = true
+  · have hs' : shareIdx ns j i = true := by rw [shareIdx, share_symm]; exact hs
+    unfold overlaps
+    rw [startsGen_getD alap allowPerm true ns O2 hi, startsGen_getD alap allowPerm true ns O2 hj]
+    rcases Nat.lt_trichotomy (posOf (cyclesGen alap allowPerm ns O2) i) (posOf (cyclesGen alap allowPerm ns O2) j)
+      with hp | hp | hp
+    · have := edge_ineq alap allowPerm true ns O2 hO (final_edge_of_share alap allowPerm ns O2 hO hi hj hs hp)
+      have h3 : decide (startOf alap allowPerm true ns O2 j < startOf alap allowPerm true ns O2 i + durIdx ns i) = false := by
+        simp only [decide_eq_false_iff_not]; omega
+      simp [h3]
+    · obtain ⟨c, hc, hic, hjc⟩ := same_cycle_of_pos alap allowPerm ns O2 hO hi hj hp
+      rw [cyclesGen_disjoint alap allowPerm ns O2 c hc i hic j hjc hij] at hs
+      exact absurd hs (by simp)
+    · have := edge_ineq alap allowPerm true ns O2 hO (final_edge_of_share alap allowPerm ns O2 hO hj hi hs' hp)
+      have h3 : decide (startOf alap allowPerm true ns O2 i < startOf alap allowPerm true ns O2 j + durIdx ns j) = false := by
+        simp only [decide_eq_false_iff_not]; omega
+      simp [h3]
+  · unfold overlaps; simp [hs]
+
+-- the repaired code schedules the witness of the finding without overlap
+example : pulseStarts ⟨false, true, [], true⟩
+    [⟨"CNOT", [1], [0], 10, true⟩, ⟨"SNOT", [2], [], 1, true⟩, ⟨"CNOT", [2], [0], 1, true⟩] = [0, 0, 10] := by
+  decide +kernel
 
 /-- … in particular always when permutation of commuting gates is disabled. -/
 theorem no_overlap_without_permutation (hO : ∀ r l, (O2 r l).Perm l) (hdur : ∀ a ∈ ns, 0 ≤ a.dur) :
-    noOverlap ns (startsGen alap false ns O2) = true :=
-  no_overlap_partial alap false ns O2 hO hdur (fun _ _ _ _ _ => by simp [commIdx])
+    noOverlap ns (startsGen alap false fx ns O2) = true :=
+  no_overlap_partial alap false fx ns O2 hO hdur (fun _ _ _ _ _ => by simp [commIdx])
 
-example : (∀ i j, i < j → j < 3 → shareIdx [⟨"CNOT", [1], [0], 10⟩, ⟨"SNOT", [2], [], 1⟩, ⟨"CNOT", [2], [1], 1⟩] i j = true →
-    commIdx true [⟨"CNOT", [1], [0], 10⟩, ⟨"SNOT", [2], [], 1⟩, ⟨"CNOT", [2], [1], 1⟩] j i = false) := by
+example : (∀ i j, i < j → j < 3 → shareIdx [⟨"CNOT", [1], [0], 10, true⟩, ⟨"SNOT", [2], [], 1, true⟩, ⟨"CNOT", [2], [1], 1, true⟩] i j = true →
+    commIdx true [⟨"CNOT", [1], [0], 10, true⟩, ⟨"SNOT", [2], [], 1, true⟩, ⟨"CNOT", [2], [1], 1, true⟩] j i = false) := by
   intro i j hij hj
   have : ∀ j ∈ List.range 3, ∀ i ∈ List.range j,
-      shareIdx [⟨"CNOT", [1], [0], 10⟩, ⟨"SNOT", [2], [], 1⟩, ⟨"CNOT", [2], [1], 1⟩] i j = true →
-      commIdx true [⟨"CNOT", [1], [0], 10⟩, ⟨"SNOT", [2], [], 1⟩, ⟨"CNOT", [2], [1], 1⟩] j i = false := by
+      shareIdx [⟨"CNOT", [1], [0], 10, true⟩, ⟨"SNOT", [2], [], 1, true⟩, ⟨"CNOT", [2], [1], 1, true⟩] i j = true →
+      commIdx true [⟨"CNOT", [1], [0], 10, true⟩, ⟨"SNOT", [2], [], 1, true⟩, ⟨"CNOT", [2], [1], 1, true⟩] j i = false := by
     decide +kernel
   exact this j (List.mem_range.mpr hj) i (List.mem_range.mpr hij)
 
 /-- `[CNOT(0→1) d=10, SNOT(2) d=1, CNOT(0→2) d=1]` -/
-def witness : List Ins := [⟨"CNOT", [1], [0], 10⟩, ⟨"SNOT", [2], [], 1⟩, ⟨"CNOT", [2], [0], 1⟩]
+def witness : List Ins := [⟨"CNOT", [1], [0], 10, true⟩, ⟨"SNOT", [2], [], 1, true⟩, ⟨"CNOT", [2], [0], 1, true⟩]
 
 /-- ASAP schedules the witness at `[0, 0, 1]` … -/
-theorem C11_counterexample_starts : pulseStarts ⟨false, true, []⟩ witness = [0, 0, 1] := by decide +kernel
+theorem C11_counterexample_starts : pulseStarts ⟨false, true, [], false⟩ witness = [0, 0, 1] := by decide +kernel
 
 /-- … so instructions 0 (`[0,10)`) and 2 (`[1,2)`) share qubit 0 and overlap. -/
-theorem C11_counterexample_overlap : overlaps witness (pulseStarts ⟨false, true, []⟩ witness) 0 2 = true := by
+theorem C11_counterexample_overlap : overlaps witness (pulseStarts ⟨false, true, [], false⟩ witness) 0 2 = true := by
   decide +kernel
 
-/-- **Refutation of `no_overlap`**: the clause fails for a list with positive durations. -/
+/-- **Refutation of `no_overlap`** for the code without the repair (`fx = false`): the clause fails for a
+list with positive durations. -/
 theorem C11_counterexample_no_overlap :
-    ¬ (∀ (cfg : Cfg) (ns : List Ins), (∀ a ∈ ns, 0 < a.dur) → noOverlap ns (pulseStarts cfg ns) = true) := by
+    ¬ (∀ (cfg : Cfg) (ns : List Ins), cfg.fx = false → (∀ a ∈ ns, 0 < a.dur) →
+        noOverlap ns (pulseStarts cfg ns) = true) := by
   intro h
-  have h1 := h ⟨false, true, []⟩ witness (by decide)
-  have h2 : noOverlap witness (pulseStarts ⟨false, true, []⟩ witness) = false := by decide +kernel
+  have h1 := h ⟨false, true, [], false⟩ witness rfl (by decide)
+  have h2 : noOverlap witness (pulseStarts ⟨false, true, [], false⟩ witness) = false := by decide +kernel
   rw [h1] at h2
   exact absurd h2 (by simp)
 
